@@ -59,8 +59,8 @@ func TBool(b bool) *Term {
 	}
 	return TFalse
 }
-func TInt(i int64) *Term    { return &Term{Op: "const", Sort: SInt, I: i, Lo: i, Hi: i} }
-func TStr(s string) *Term   { return &Term{Op: "const", Sort: SString, S: s} }
+func TInt(i int64) *Term      { return &Term{Op: "const", Sort: SInt, I: i, Lo: i, Hi: i} }
+func TStr(s string) *Term     { return &Term{Op: "const", Sort: SString, S: s} }
 func (t *Term) IsConst() bool { return t.Op == "const" }
 
 func TSym(name string, s Sort) *Term {
@@ -709,7 +709,6 @@ func sortedSymNames(m map[string]*Term) []string {
 	return ns
 }
 
-
 // strParts splits a string term into a constant prefix and the remaining parts.
 func strParts(t *Term) (string, []*Term) {
 	switch {
@@ -769,7 +768,6 @@ func strEqSimplify(a, b *Term) *Term {
 	na, nb := joinParts(pa[n:], ra), joinParts(pb[n:], rb)
 	return TEq(na, nb)
 }
-
 
 // SymNames returns the (cached, sorted) names of the symbols under t.
 func (t *Term) SymNames() []string {
